@@ -413,6 +413,71 @@ pub fn run(ctx: &mut Ctx) {
         }
         ctx.bounds.insert("closing_handshakes".into(), json!(format!("{} sessions x {} shapes of the shutdown params x {} shapes of the exit params", sessions.len(), shapes.len(), shapes.len())));
     }
+    // the method name is client-chosen data: every method name of the protocol (and names in each of its
+    // name spaces that no protocol version defines), sent as a request (with a number or a string as id)
+    // and as a notification, with its params absent, empty or null, before and after a document is opened.
+    // A request gets exactly one response carrying its id (an error when the server does not implement
+    // the method); a notification gets none; the server lives and the session ends cleanly.
+    {
+        let methods: Vec<&str> = vec![
+            "textDocument/willSaveWaitUntil", "textDocument/declaration", "textDocument/definition", "textDocument/typeDefinition",
+            "textDocument/implementation", "textDocument/references", "textDocument/prepareCallHierarchy", "callHierarchy/incomingCalls",
+            "callHierarchy/outgoingCalls", "textDocument/prepareTypeHierarchy", "typeHierarchy/supertypes", "typeHierarchy/subtypes",
+            "textDocument/documentHighlight", "textDocument/documentLink", "documentLink/resolve", "textDocument/hover", "textDocument/codeLens",
+            "codeLens/resolve", "workspace/codeLens/refresh", "textDocument/foldingRange", "textDocument/selectionRange",
+            "textDocument/documentSymbol", "textDocument/semanticTokens/full/delta", "textDocument/semanticTokens/range",
+            "workspace/semanticTokens/refresh", "textDocument/inlineValue", "workspace/inlineValue/refresh", "textDocument/inlayHint",
+            "inlayHint/resolve", "workspace/inlayHint/refresh", "textDocument/moniker", "textDocument/completion", "completionItem/resolve",
+            "textDocument/publishDiagnostics", "textDocument/diagnostic", "workspace/diagnostic", "workspace/diagnostic/refresh",
+            "textDocument/signatureHelp", "textDocument/codeAction", "codeAction/resolve", "textDocument/documentColor",
+            "textDocument/colorPresentation", "textDocument/formatting", "textDocument/rangeFormatting", "textDocument/onTypeFormatting",
+            "textDocument/rename", "textDocument/prepareRename", "textDocument/linkedEditingRange", "workspace/symbol",
+            "workspaceSymbol/resolve", "workspace/configuration", "workspace/workspaceFolders", "workspace/willCreateFiles",
+            "workspace/willRenameFiles", "workspace/willDeleteFiles", "workspace/executeCommand", "workspace/applyEdit",
+            "window/showMessageRequest", "window/showDocument", "window/workDoneProgress/create", "client/registerCapability",
+            "client/unregisterCapability", "textDocument/didClose", "textDocument/didSave", "textDocument/willSave",
+            "workspace/didChangeConfiguration", "workspace/didChangeWatchedFiles", "workspace/didChangeWorkspaceFolders",
+            "workspace/didCreateFiles", "workspace/didRenameFiles", "workspace/didDeleteFiles", "window/showMessage", "window/logMessage",
+            "telemetry/event", "notebookDocument/didOpen", "notebookDocument/didChange", "notebookDocument/didSave",
+            "notebookDocument/didClose", "$/cancelRequest", "$/progress", "$/setTrace", "$/logTrace", "$/unknown", "$/ironplc/status", "$",
+            "$/", "initialized", "textDocument/unknown", "workspace/unknown", "window/unknown", "unknown", "foo/bar", "ironplc/status",
+            "textDocument/semanticTokens", "textDocument/semanticTokens/full/", "TEXTDOCUMENT/SEMANTICTOKENS/FULL", "textDocument/didopen",
+            "", " ", "/", "rpc.discover", "\u{e9}\u{20ac}", "a/very/long/method/name/that/no/version/of/the/protocol/defines/and/that/goes/on/for/a/while",
+        ];
+        let params: Vec<(&str, Option<Value>)> = vec![("absent", None), ("empty-object", Some(json!({}))), ("null", Some(Value::Null)), ("text-document", Some(json!({"textDocument":{"uri":A},"position":{"line":0,"character":0}})))];
+        let ids: Vec<(&str, Option<Value>)> = vec![("notification", None), ("number-id", Some(json!(77))), ("string-id", Some(json!("seventy-seven"))), ("zero-id", Some(json!(0))), ("negative-id", Some(json!(-5)))];
+        let mut jobs = vec![];
+        for opened in [false, true] {
+            for (mi, _) in methods.iter().enumerate() {
+                for (pi, _) in params.iter().enumerate() {
+                    for (ii, _) in ids.iter().enumerate() {
+                        jobs.push((opened, mi, pi, ii));
+                    }
+                }
+            }
+        }
+        let res: Vec<Vec<(String, String)>> = jobs
+            .par_iter()
+            .map(|(opened, mi, pi, ii)| method_case(*opened, methods[*mi], params[*pi].0, &params[*pi].1, ids[*ii].0, &ids[*ii].1))
+            .collect();
+        for ((opened, mi, pi, ii), fs) in jobs.iter().zip(res.iter()) {
+            count += 1;
+            ctx.distinct(&format!("method|{}|{}|{}|{}", opened, mi, pi, ii));
+            for (k, w) in fs {
+                ctx.fail(k, w, {
+                    let mut c = json!({"mode":"method-sweep","opened":opened,"method":methods[*mi],"params":params[*pi].0,"id":ids[*ii].0});
+                    if let Some(p) = &params[*pi].1 {
+                        c["params_value"] = p.clone();
+                    }
+                    if let Some(i) = &ids[*ii].1 {
+                        c["id_value"] = i.clone();
+                    }
+                    c
+                });
+            }
+        }
+        ctx.bounds.insert("method_sweep".into(), json!(format!("{} method names x {} params shapes x {} ways of sending (notification, request with 4 id shapes) x 2 sessions", methods.len(), params.len(), ids.len())));
+    }
     // a client with a workspace: the real binary initialised with a folder on disk (every content menu member x every
     // way of naming it) and then used: whatever the folder holds, the server lives and answers every request once
     {
@@ -621,7 +686,74 @@ pub fn run(ctx: &mut Ctx) {
     }
 }
 
+/// One case of the method sweep: a fresh server, optionally a document, the message, the next request, the closing handshake.
+fn method_case(opened: bool, method: &str, params_name: &str, params: &Option<Value>, id_name: &str, id: &Option<Value>) -> Vec<(String, String)> {
+    let mut failures = vec![];
+    let mut srv = MemSrv::new(Some(vec![0, 1]));
+    if opened {
+        let o = srv.step(&did_open(A, 1, V));
+        if o.status != Status::Alive {
+            return vec![("method-sweep/server-died/didOpen".to_string(), "the server died opening the valid document".to_string())];
+        }
+    }
+    let what = format!("method {:?} as {} with params {}", method, id_name, params_name);
+    let mut msg = json!({"method": method});
+    if let Some(p) = params {
+        msg["params"] = p.clone();
+    }
+    if let Some(id) = id {
+        msg["id"] = id.clone();
+    }
+    let o = srv.step(&msg);
+    if o.status != Status::Alive {
+        failures.push((format!("method-sweep/server-{}/{}", if o.status == Status::Dead { "died" } else { "hung" }, id_name), format!("{}: the server is {:?}", what, o.status)));
+        return failures;
+    }
+    let responses: Vec<&Value> = o.msgs.iter().filter(|m| m.get("method").is_none()).collect();
+    match id {
+        None => {
+            if !responses.is_empty() {
+                failures.push(("method-sweep/notification-answered".to_string(), format!("{}: {} response(s), first {}", what, responses.len(), responses[0])));
+            }
+        }
+        Some(id) => {
+            let mine = responses.iter().filter(|m| &m["id"] == id).count();
+            if mine != 1 {
+                failures.push((format!("method-sweep/request-answered-{}-times/{}", mine, id_name), format!("{}: {} response(s) carry its id; all responses: {:?}", what, mine, responses)));
+            }
+            if responses.len() != mine {
+                failures.push(("method-sweep/unsolicited-response".to_string(), format!("{}: responses {:?}", what, responses)));
+            }
+            if let Some(r) = responses.iter().find(|m| &m["id"] == id) {
+                if r.get("error").is_none() && r.get("result").is_none() {
+                    failures.push(("method-sweep/response-without-result-or-error".to_string(), format!("{}: {}", what, r)));
+                }
+            }
+        }
+    }
+    // the session goes on: a token request is answered, the closing handshake works
+    let o2 = srv.step(&tokens_req(4242, A));
+    let answered = o2.msgs.iter().filter(|m| m.get("method").is_none() && m["id"] == json!(4242)).count();
+    if o2.status != Status::Alive || answered != 1 {
+        failures.push(("method-sweep/next-request-not-answered-once".to_string(), format!("after {}: status {:?}, {} answers to the next request", what, o2.status, answered)));
+        return failures;
+    }
+    if let Err(e) = Box::new(srv).finish() {
+        failures.push(("method-sweep/unclean-termination".to_string(), format!("after {}: {}", what, e)));
+    }
+    failures
+}
+
 pub fn replay(case: &Value) -> Result<String, String> {
+    if case["mode"] == json!("method-sweep") {
+        let params = case.get("params_value").cloned();
+        let id = case.get("id_value").cloned();
+        let fs = method_case(case["opened"].as_bool().unwrap_or(false), case["method"].as_str().ok_or("method")?, case["params"].as_str().unwrap_or(""), &params, case["id"].as_str().unwrap_or(""), &id);
+        return match fs.first() {
+            None => Ok("answered as the protocol demands, the session goes on and ends cleanly".into()),
+            Some((k, w)) => Err(format!("{} :: {}", k, w)),
+        };
+    }
     if case["mode"] == json!("document") {
         let text = case["text"].as_str().ok_or("text")?.to_string();
         let alpha2 = vec![
